@@ -480,3 +480,76 @@ def r13_6(ctx):
                 ok = True
     ctx.check(ok, "decorator transcribed() calls func(self._transcribed, ...)", detail="decorator does not transcribe",
               expected="func(self._transcribed, *args, **kwargs)", found="not found", fi=d)
+
+
+@rule("R13.7", min_instances=4, desc="the invalidation flag written by _set_transcribed is the flag read by is_transcribed (the master's), for stages at any depth")
+def r13_7(ctx):
+    prog = ctx.prog
+    f = prog.own_method("Stage", "_set_transcribed")
+    sc = ctx.scope(f)
+    ws = [st for st in walk_no_nested(f.node) if isinstance(st, ast.Assign)]
+    ok = len(ws) == 1 and ast.unparse(ws[0].targets[0]) == "self.master._var_is_transcribed" and ast.unparse(ws[0].value) == f.params[1]
+    ctx.check(ok, "Stage._set_transcribed writes the master's flag", detail="invalidation recorded on the wrong object (sub-stage edits ignored)",
+              expected="self.master._var_is_transcribed = val", found="; ".join(ast.unparse(w) for w in ws), fi=f)
+    if ws:
+        gs = [(ast.unparse(t), p) for t, p in sc.guards(ws[0])]
+        ctx.check(gs == [("self.master", True), ("self._is_original", True)], "Stage._set_transcribed acts for every original stage attached to an OCP", detail="invalidation skipped",
+                  expected="if self.master: if self._is_original:", found=gs, fi=f)
+    g = prog.own_method("Stage", "_is_transcribed")
+    rets = [(ast.unparse(r.value), [(ast.unparse(t), p) for t, p in ctx.scope(g).guards(r)]) for r in walk_no_nested(g.node) if isinstance(r, ast.Return)]
+    want = [("self.master._var_is_transcribed", [("self._is_original", True)]), ("self._original._is_transcribed", [("self._is_original", False)])]
+    ctx.check(rets == want, "Stage._is_transcribed reads the same flag", detail="reader and writer of the transcription flag disagree", expected=want, found=rets, fi=g)
+    h = prog.own_method("Stage", "is_transcribed")
+    rets = [(ast.unparse(r.value), [(ast.unparse(t), p) for t, p in ctx.scope(h).guards(r)]) for r in walk_no_nested(h.node) if isinstance(r, ast.Return)]
+    want = [("self.master._is_transcribed", [("self.master", True)]), ("False", [("self.master", False)])]
+    ctx.check(rets == want, "Stage.is_transcribed asks the master", detail="transcription state read from the wrong object", expected=want, found=rets, fi=h)
+    t = prog.own_method("Ocp", "_transcribe")
+    marks = [c for c in walk_no_nested(t.node) if is_call_to(c, "_set_transcribed") and c.args and ast.unparse(c.args[0]) == "True"]
+    ok = len(marks) == 1 and ast.unparse(marks[0].func.value) == "self._original"
+    ctx.check(ok, "Ocp._transcribe marks the original as transcribed", detail="flag set on the copy", expected="self._original._set_transcribed(True)", found="; ".join(ast.unparse(m) for m in marks), fi=t)
+
+
+def param_mutations(ctx, f, pname):
+    """Mutations of the object bound to parameter pname while it still is the caller's object."""
+    sc = ctx.scope(f)
+    out = []
+    for n in walk_no_nested(f.node):
+        tgt = None
+        if isinstance(n, ast.Delete):
+            for t in n.targets:
+                if isinstance(t, ast.Subscript) and isinstance(t.value, ast.Name) and t.value.id == pname:
+                    tgt = t.value
+        elif isinstance(n, ast.Assign):
+            for t in n.targets:
+                if isinstance(t, ast.Subscript) and isinstance(t.value, ast.Name) and t.value.id == pname:
+                    tgt = t.value
+        elif isinstance(n, ast.Call) and isinstance(n.func, ast.Attribute) and isinstance(n.func.value, ast.Name) and n.func.value.id == pname \
+                and n.func.attr in ("pop", "popitem", "clear", "update", "setdefault", "move_to_end", "append", "extend", "remove", "insert", "__setitem__", "__delitem__"):
+            tgt = n.func.value
+        if tgt is None:
+            continue
+        # is the name rebound to a fresh container before this point (in a dominating block)?
+        rebound = False
+        for d in sc.defs.get(pname, []):
+            if d.kind == "assign" and d.order < sc.order[n] and isinstance(d.value, ast.Call) and not sc.guards(d.stmt) and not sc.enclosing_loops(d.stmt):
+                rebound = True
+        if not rebound:
+            out.append(n)
+    return out
+
+
+@rule("R13.8", min_instances=5, desc="write-through callees treat the user's specification containers as read-only (they work on a copy)")
+def r13_8(ctx):
+    prog = ctx.prog
+    for cname in ("SamplingMethod", "DirectCollocation", "DirectMethod", "SplineMethod"):
+        f = prog.own_method(cname, "set_initial")
+        pname = f.params[3]
+        muts = param_mutations(ctx, f, pname)
+        ctx.check(not muts, "%s.set_initial does not edit the caller's guess table" % cname, detail="a later set_initial erases or alters declared guesses",
+                  expected="work on a copy (initial = HashOrderedDict(initial)) before deleting/adding entries", found="; ".join(ast.unparse(m)[:60] for m in muts[:2]), fi=f,
+                  node=(muts[0] if muts else None))
+    f = prog.own_method("Stage", "set_initial")
+    calls = [c for c in walk_no_nested(f.node) if is_call_to(c, "set_initial", "self._method")]
+    ok = len(calls) == 1 and [ast.unparse(a) for a in calls[0].args] == ["self._augmented", "self.master._method", "self._initial"]
+    ctx.check(ok, "Stage.set_initial re-applies the whole guess table to the live transcription", detail="write-through call", expected="self._method.set_initial(self._augmented, self.master._method, self._initial)",
+              found="; ".join(ast.unparse(c) for c in calls), fi=f)
